@@ -19,7 +19,7 @@ impl Check for C05 {
         700
     }
     fn cases(&self, tier: Tier) -> u64 {
-        tier.pick(20_000, 2_000_000)
+        tier.pick(600_000, 20_000_000)
     }
     fn run_case(&self, src: &mut Src, obs: &mut Obs) -> Result<(), Fail> {
         let two_d = src.chance(1, 3);
